@@ -44,7 +44,9 @@ Inductive dlctx := CxSend | CxReply | CxElapsed.
 
 Definition item := (oid * okind)%type.
 
-Inductive ophase := OWait | OGranted | OWaitReply | ODone (r : result).
+(* OPre: the envelope is built but not yet in the mailbox (the sender is being polled for the
+   first time, or sits in the wait queue, or holds a granted permit) *)
+Inductive ophase := OPre | OWaitReply | ODone (r : result).
 Inductive slot := SlEmpty | SlVal (v : N) | SlClosed.
 
 Record op := mkOp {
